@@ -33,7 +33,7 @@ Put(fn, k, v) == [x \in (DOMAIN fn) \cup {k} |-> IF x = k THEN v ELSE fn[x]]
 S0 == [phase |-> "idle", kind |-> "none", named |-> {}, mem |-> Empty, orig |-> Empty, split |-> Empty,
        eff |-> Empty, live |-> {}, pend |-> {}, twr |-> {}, orphans |-> {}, rwp |-> {}, dirty |-> {},
        cnt |-> Empty, ver |-> <<>>, ins |-> [f |-> "none"], touched |-> FALSE, unwinding |-> FALSE,
-       crashed |-> FALSE, lives |-> 0]
+       crashed |-> FALSE, lives |-> 0, ambient |-> FALSE]
 
 TraceInit == sc \in 1..NScen /\ l = First(sc) /\ s = S0
 
@@ -47,6 +47,10 @@ Target ==
   /\ s' = [s EXCEPT !.mem = Put(@, Ev.f, Ev.orig), !.orig = Put(@, Ev.f, Ev.orig),
                     !.split = Put(@, Ev.f, Ev.split), !.eff = Put(@, Ev.f, <<>>),
                     !.rwp = @ \cup {<<Ev.f, p>> : p \in Elems(Ev.rwpages)}]
+
+\* the whole scenario runs while the thread is already unwinding from an unrelated panic
+\* (std::thread::panicking() = TRUE): nothing changes except that the verifier stays silent
+Ambient == Step("Ambient") /\ s' = [s EXCEPT !.ambient = TRUE]
 
 Acquire ==
   /\ Step("Acquire") /\ s.phase = "idle"
@@ -184,7 +188,7 @@ UserPanic ==
 
 DropBegin ==
   /\ Step("DropBegin") /\ s.phase = "user"
-  /\ Req("C05", (Ev.how = "unwind") = s.unwinding)
+  /\ Req("C05", ~s.ambient => ((Ev.how = "unwind") = s.unwinding))
   /\ s' = [s EXCEPT !.phase = "drop"]
 
 \* the verifier that should speak at a normal scope exit: the first one whose count is off
@@ -202,12 +206,13 @@ DropEnd ==
   /\ Req("C12", s.live = {})
   /\ Req("C17", s.dirty = {})
   /\ Req("C04", Ev.lock # 1)
-  /\ Req("C05", Ev.lock # 1 /\ Ev.panics <= 1)
+  /\ Req("C05", Ev.lock # 1 /\ Ev.panics <= (IF s.ambient THEN 2 ELSE 1))
   /\ Req("C05", s.unwinding => Ev.outcome = "ok")        \* nothing is raised while unwinding
   \* unwinding restores every faked function and gives every trampoline back
   /\ Req("C05", s.unwinding => ((\A f \in DOMAIN s.mem : s.mem[f] = s.orig[f]) /\ s.live = {}))
-  /\ Req("C06", ~s.unwinding => ExitVerdictOk)
-  /\ Req("C07", ~s.unwinding => ExitVerdictOk)
+  /\ Req("C06", (~s.unwinding /\ ~s.ambient) => ExitVerdictOk)
+  /\ Req("C07", (~s.unwinding /\ ~s.ambient) => ExitVerdictOk)
+  /\ Req("C06", s.ambient => Ev.outcome = "ok")
   /\ s' = [s EXCEPT !.phase = "idle", !.kind = "none", !.lives = @ + 1, !.live = {}, !.dirty = {},
                     !.eff = [f \in DOMAIN s.eff |-> <<>>]]
 
@@ -234,7 +239,7 @@ Note == Step("Note") /\ s' = s
 Neighbour == Step("Neighbour") /\ Req("C03", Ev.ok) /\ s' = s
 
 TraceNext ==
-  \/ Target \/ Acquire \/ InstallBegin \/ Mmap \/ Munmap \/ WriteTramp \/ WriteEntry \/ WriteOther
+  \/ Ambient \/ Target \/ Acquire \/ InstallBegin \/ Mmap \/ Munmap \/ WriteTramp \/ WriteEntry \/ WriteOther
   \/ Flush \/ Mprotect \/ InstallEndOk \/ InstallEndAbandoned \/ InstallEndPanic \/ Call \/ UserPanic \/ DropBegin \/ DropEnd
   \/ Diff \/ Fresh \/ ChildExit \/ Note \/ CallUnwind \/ Neighbour
 
